@@ -59,6 +59,12 @@ func (c15) step(t []string) string {
 		return fmtKT(s)
 	case "bsearch":
 		return itoa(slices.BinarySearch(parseInts(t[1]), atoi(t[2])))
+	case "bsearchunits":
+		// BinarySearchFunc on a slice of n zero-size elements (no memory; lengths up to MaxInt are legal): less answers a constant
+		need(t, 3)
+		n := atoi(t[1])
+		all := atoi(t[2]) != 0
+		return itoa(slices.BinarySearchFunc(make([]struct{}, n), func(struct{}) bool { return all }))
 	case "bsearchfunc":
 		v := atoi(t[2])
 		return itoa(slices.BinarySearchFunc(parseInts(t[1]), func(a int) bool { return a < v }))
